@@ -605,6 +605,76 @@ proof fn lemma_val_mod_pow2(s: Seq<Limb>, n: nat, idx: nat, base: nat)
     lemma_small_mod((val(s, idx) + rd * pi) as nat, m as nat);
 }
 
+// ---------------------------------------------------------------- rem_wide_vartime
+
+/// t = s moved up by one limb with a new low limb
+proof fn lemma_shift_up1(s: Seq<Limb>, t: Seq<Limb>, m: nat)
+    requires forall|j: int| 1 <= j <= m ==> t[j] == s[j - 1]
+    ensures val(t, m + 1) == t[0].0 as int + B() * val(s, m)
+    decreases m
+{
+    lemma_bp1();
+    if m == 0 {
+        assert(val(t, 1) == val(t, 0) + t[0].0 as int * bp(0));
+        assert(val(t, 0) == 0 && val(s, 0) == 0);
+    } else {
+        let m1 = (m - 1) as nat;
+        lemma_shift_up1(s, t, m1);
+        lemma_bp_succ(m1);
+        let a = s[m1 as int].0 as int; let q = bp(m1); let v = val(s, m1);
+        assert(t[m as int] == s[m - 1]);
+        assert(val(t, m + 1) == val(t, m) + a * bp(m));
+        assert(val(s, m) == v + a * q);
+        assert(B() * (v + a * q) == B() * v + a * (B() * q)) by (nonlinear_arith);
+    }
+}
+
+/// the Knuth step seen from the wide remainder: A = h * B^k + val(xb, k) loses qt * yv * B^p
+proof fn lemma_wide_iter(xb: Seq<Limb>, xa: Seq<Limb>, h: int, k: nat, yc: nat, n: nat, yv: int, qt: int, qacc: int, xv: int, be: int, lov: int)
+    requires 2 <= yc <= k <= n, yv > 0,
+        0 <= kn_wsc(xb, h, k, yc) - qt * yv * bp((k - yc) as nat) < yv * bp((k - yc) as nat),
+        tv(xa, (k - yc) as nat, k) == kn_wsc(xb, h, k, yc) - qt * yv * bp((k - yc) as nat),
+        forall|j: int| 0 <= j < n && !(k - yc <= j < k) ==> xa[j] == xb[j],
+        xv == qacc * yv + (h * bp(k) + val(xb, k)) * be + lov,
+    ensures
+        val(xa, k) == h * bp(k) + val(xb, k) - qt * yv * bp((k - yc) as nat),
+        0 <= val(xa, k) < yv * bp((k - yc) as nat),
+        xv == (qacc + qt * bp((k - yc) as nat) * be) * yv + val(xa, k) * be + lov,
+{
+    let p = (k - yc) as nat; let pp = bp(p);
+    let wsc = kn_wsc(xb, h, k, yc);
+    let a = h * bp(k) + val(xb, k);
+    let d = qt * yv * pp;
+    lemma_val_ext(xb, xa, p);
+    lemma_val_bound(xa, k);
+    lemma_knuth_rem_bound(xb, h, k, yc, yv, qt);
+    assert(val(xa, k) == a - d);
+    assert((a - d) * be == a * be - d * be) by (nonlinear_arith);
+    assert((qacc + qt * pp * be) * yv == qacc * yv + d * be) by (nonlinear_arith) requires d == qt * yv * pp;
+}
+
+/// fetching the next low limb: x moves up by one limb, the old top limb becomes x_hi
+proof fn lemma_wide_fetch(xa: Seq<Limb>, xn: Seq<Limb>, los: Seq<Limb>, n: nat, e: nat, bound: int)
+    requires n >= 1, e >= 1, xn[0] == los[e - 1], forall|j: int| 1 <= j < n ==> xn[j] == xa[j - 1],
+        0 <= val(xa, n) < bound,
+    ensures
+        (xa[n - 1].0 as int * bp(n) + val(xn, n)) * bp((e - 1) as nat) + val(los, (e - 1) as nat) == val(xa, n) * bp(e) + val(los, e),
+        xa[n - 1].0 as int * bp(n) + val(xn, n) < bound * B(),
+{
+    let n1 = (n - 1) as nat; let e1 = (e - 1) as nat;
+    lemma_shift_up1(xa, xn, n1);
+    lemma_bp_succ(n1); lemma_bp_succ(e1);
+    let top = xa[n1 as int].0 as int; let l0 = xn[0].0 as int;
+    let an = top * bp(n) + val(xn, n);
+    let va = val(xa, n);
+    assert(va == val(xa, n1) + top * bp(n1));
+    assert(an == B() * va + l0) by (nonlinear_arith)
+        requires an == top * bp(n) + l0 + B() * val(xa, n1), bp(n) == B() * bp(n1), va == val(xa, n1) + top * bp(n1);
+    assert(val(los, e) == val(los, e1) + l0 * bp(e1));
+    assert((B() * va + l0) * bp(e1) == va * (B() * bp(e1)) + l0 * bp(e1)) by (nonlinear_arith);
+    assert(B() * va + B() <= bound * B()) by (nonlinear_arith) requires va + 1 <= bound;
+}
+
 //@@ subst \b(Self|Uint)::(ZERO|ONE|MAX|BITS|LOG2_BITS)\b(?!\() => \1::\2()
 //@@ subst \bUint::<(\w+)>::(ZERO|ONE|MAX|BITS)\b(?!\() => Uint::<\1>::\2()
 //@@ fn src/uint/div.rs | impl<const LIMBS: usize> Uint<LIMBS> | shl_limb_vartime | body | props C02 C11
@@ -1077,17 +1147,325 @@ pub const fn wrapping_rem_vartime(&self, rhs: &Self) -> (ret__: Self)
     }
 }
 //@@ end
-//@@ fn src/uint/div.rs | impl<const LIMBS: usize> Uint<LIMBS> | rem_wide_vartime | stub | props C02 C11
+//@@ fn src/uint/div.rs | impl<const LIMBS: usize> Uint<LIMBS> | rem_wide_vartime | body | props C02 C11
 impl<const LIMBS: usize> Uint<LIMBS> {
-#[verifier::external_body]
 pub const fn rem_wide_vartime(lower_upper: (Self, Self), rhs: &NonZero<Self>) -> (ret__: Self)
 //@+
     requires 1 <= LIMBS < 0x400_0000, rhs.0.v() != 0
     ensures ret__.v() == (lower_upper.0.v() + lower_upper.1.v() * bp(LIMBS as nat)) % rhs.0.v()
 //@-
 {
-    unimplemented!()
-}
+        let dbits = rhs.0.bits_vartime();
+        let yc = dbits.div_ceil(Limb::BITS) as usize;
+//@+
+    let ghost rv = rhs.0.v();
+    let ghost lov = lower_upper.0.v();
+    let ghost hiv = lower_upper.1.v();
+    let ghost nl = LIMBS as nat;
+    let ghost sv = lov + hiv * bp(nl);
+    proof {
+        lemma_val_bound(rhs.0.limbs@, nl); lemma_val_bound(lower_upper.0.limbs@, nl); lemma_val_bound(lower_upper.1.limbs@, nl);
+        lemma_bp1();
+        lemma_bp_pow2(yc as nat);
+        lemma_bp_pow2(nl);
+        if (dbits as nat) < 64 * (yc as nat) { lemma_pow2_strictly_increases(dbits as nat, 64 * (yc as nat)); }
+        assert(rv < bp(yc as nat));
+        lemma_val_small(rhs.0.limbs@, yc as nat, nl);
+        // 0 <= sv < B^(2 LIMBS)
+        lemma_bp_add(nl, nl);
+        assert(hiv * bp(nl) <= (bp(nl) - 1) * bp(nl)) by (nonlinear_arith) requires hiv <= bp(nl) - 1, bp(nl) > 0;
+        assert((bp(nl) - 1) * bp(nl) == bp(nl) * bp(nl) - bp(nl)) by (nonlinear_arith);
+        assert(hiv * bp(nl) >= 0) by (nonlinear_arith) requires hiv >= 0, bp(nl) > 0;
+        assert(0 <= sv < bp(nl + nl));
+    }
+//@-
+        // If the divisor is a single limb, use limb division
+        if yc == 1 {
+//@+
+    proof { lemma_val_single(rhs.0.limbs@, nl); }
+//@-
+            let r = rem_limb_with_reciprocal_wide(
+                (&lower_upper.0, &lower_upper.1),
+                &Reciprocal::new(rhs.0.limbs[0].to_nz().expect("zero divisor")),
+            );
+            return Uint::from_word(r.0);
+        }
+        // The shift needed to set the MSB of the highest nonzero limb of the divisor.
+        // 2^shift == d in the algorithm above.
+        let shift = (Limb::BITS - (dbits % Limb::BITS)) % Limb::BITS;
+//@+
+    let ghost s2 = p2(shift as nat);
+    let ghost yv = rv * s2;   // normalised divisor
+    let ghost xv = sv * s2;   // shifted dividend
+//@-
+        let (y, _) = rhs.0.shl_limb_vartime(shift, yc);
+        let y = y.to_limbs();
+        let (x_lo, x_lo_carry) = lower_upper.0.shl_limb_vartime(shift, LIMBS);
+        let (x, mut x_hi) = lower_upper.1.shl_limb_vartime(shift, LIMBS);
+        let mut x = x.to_limbs();
+//@+
+    let ghost x0 = x@;
+    let ghost cl = x_lo_carry.0 as int;
+    proof {
+        lemma_knuth_norm(rv, sv, dbits as nat, yc as nat, nl + nl, shift as nat);
+        lemma_small_mod(yv as nat, bp(yc as nat) as nat);
+        assert(val(y@, yc as nat) == yv);
+        lemma_knuth_top_norm(y@, yc as nat);
+        if shift > 0 { lemma_or_is_add(lower_upper.1.limbs@[0].0, lower_upper.0.limbs@[LIMBS - 1].0, shift); }
+    }
+//@-
+        if shift > 0 {
+            x[0] = Limb(x[0].0 | x_lo_carry.0);
+        }
+//@+
+    proof {
+        // x == x0 + carry of the low half
+        assert(x@[0].0 as int == x0[0].0 as int + cl);
+        lemma_tv_ext(x0, x@, 1, nl);
+        assert(val(x@, 1) == val(x@, 0) + x@[0].0 as int * bp(0));
+        assert(val(x0, 1) == val(x0, 0) + x0[0].0 as int * bp(0));
+        assert(val(x@, nl) == val(x0, nl) + cl);
+    }
+//@-
+        let reciprocal = Reciprocal::new(y[yc - 1].to_nz().expect("zero divisor"));
+        let mut xi = LIMBS - 1;
+        let mut extra_limbs = LIMBS;
+        let mut i;
+//@+
+    let ghost mut k: nat = nl;      // Rem = (x_hi * B^k + val(x, k)) * B^extra + val(x_lo, extra)
+    let ghost mut qacc: int = 0;
+    proof {
+        let a0 = x_hi.0 as int * bp(nl) + val(x@, nl);
+        let l0 = val(x_lo.limbs@, nl);
+        let bn = bp(nl);
+        assert(0 * yv == 0);
+        // xv = lov*s2 + hiv*s2*B^n
+        assert(xv == lov * s2 + (hiv * s2) * bn) by (nonlinear_arith) requires xv == (lov + hiv * bn) * s2;
+        assert((x_hi.0 as int * bn + val(x0, nl) + cl) * bn == (x_hi.0 as int * bn + val(x0, nl)) * bn + cl * bn) by (nonlinear_arith);
+        assert(xv == a0 * bn + l0);
+        // bound
+        lemma_val_bound(x_lo.limbs@, nl);
+        lemma_bp_add((nl - yc + 1) as nat, nl);
+        assert(((nl - yc + 1) + nl) as nat == (nl + nl - yc + 1) as nat);
+        let c = yv * bp((nl - yc + 1) as nat);
+        assert(yv * bp((nl + nl - yc + 1) as nat) == c * bn) by (nonlinear_arith) requires bp((nl + nl - yc + 1) as nat) == bp((nl - yc + 1) as nat) * bn, c == yv * bp((nl - yc + 1) as nat);
+        assert(a0 < c) by (nonlinear_arith) requires a0 * bn <= xv, xv < c * bn, bn > 0;
+    }
+//@-
+        // Note that in the algorithm we only ever need to access the highest `yc` limbs
+        // of the dividend, and since `yc < LIMBS`, we only need to access
+        // the high half of the dividend.
+        //
+        // So we proceed similarly to `div_rem_vartime()` applied to the high half of the dividend,
+        // fetching the limbs from the lower part as we go.
+        loop
+//@+
+    invariant_except_break
+        k == xi + 1,
+    invariant
+        2 <= yc <= LIMBS, yc - 1 <= xi < LIMBS, 1 <= LIMBS < 0x400_0000, nl == LIMBS,
+        yc - 1 <= k <= LIMBS, 0 <= extra_limbs <= LIMBS, extra_limbs > 0 ==> xi == LIMBS - 1,
+        val(y@, yc as nat) == yv, 2 * yv >= bp(yc as nat), yv < bp(yc as nat), yv > 0,
+        reciprocal.wf(), reciprocal.shift == 0, reciprocal.divisor_normalized == y@[yc - 1].0,
+        xv == qacc * yv + (x_hi.0 as int * bp(k) + val(x@, k)) * bp(extra_limbs as nat) + val(x_lo.limbs@, extra_limbs as nat),
+        x_hi.0 as int * bp(k) + val(x@, k) < yv * bp((k - yc + 1) as nat),
+        forall|j: int| xi < j < LIMBS ==> x@[j].0 == 0,
+    ensures
+        extra_limbs == 0, k == xi, xi == yc - 1, x_hi == x@[xi as int],
+    decreases extra_limbs + xi,
+//@-
+{
+//@+
+    let ghost p = (xi + 1 - yc) as nat;
+    let ghost pp = bp(p);
+    let ghost xb = x@;
+    let ghost hb = x_hi.0 as int;
+    let ghost wsc = kn_wsc(xb, hb, k, yc as nat);
+    let ghost qt = kn_qt(xb, hb, k, yc as nat, yv);
+    let ghost rp = wsc - qt * yv * pp;
+    let ghost be = bp(extra_limbs as nat);
+    proof { lemma_knuth_top(xb, y@, hb, k, yc as nat, yv); }
+//@-
+            // Divide high dividend words by the high divisor word to estimate the quotient word
+            let quo = div3by2(x_hi.0, x[xi].0, x[xi - 1].0, &reciprocal, y[yc - 2].0);
+//@+
+    let ghost q = quo as int;
+    proof {
+        lemma_knuth_quo(xb, y@, hb, k, yc as nat, yv, q);
+        assert((qt + 1) * yv * pp == qt * yv * pp + yv * pp) by (nonlinear_arith);
+        assert(0 <= rp < yv * pp);
+    }
+//@-
+            // Subtract q*divisor from the dividend
+            let borrow = {
+                let mut carry = Limb::ZERO;
+                let mut borrow = Limb::ZERO;
+                let mut tmp;
+                i = 0;
+//@+
+    proof { assert(q * val(y@, 0) * pp == 0) by (nonlinear_arith) requires val(y@, 0) == 0; assert(0 * bp((p + 0) as nat) == 0); }
+//@-
+                while i < yc
+//@+
+    invariant
+        2 <= yc <= LIMBS, xi < LIMBS, xi + 1 >= yc, LIMBS < 0x400_0000,
+        p == xi + 1 - yc, pp == bp(p), q == quo as int, 0 <= i <= yc,
+        borrow.0 == 0 || borrow.0 == u64::MAX,
+        forall|kq: int| 0 <= kq < LIMBS && !(p <= kq < p + i) ==> x@[kq] == xb[kq],
+        tv(x@, p, (p + i) as nat) == tv(xb, p, (p + i) as nat) - q * val(y@, i as nat) * pp
+            + carry.0 as int * bp((p + i) as nat) + bb(borrow) * bp((p + i) as nat),
+    decreases yc - i,
+//@-
+{
+//@+
+    let ghost x_before = x@; let ghost carry_b = carry; let ghost borrow_b = borrow;
+//@-
+                    let (__t0, __t1) = Limb::ZERO.mac(y[i], Limb(quo), carry); tmp = __t0; carry = __t1;
+                    let (__t2, __t3) = x[xi + i + 1 - yc].sbb(tmp, borrow); x[xi + i + 1 - yc] = __t2; borrow = __t3;
+//@+
+    proof {
+        lemma_knuth_sub_step(xb, x_before, x@, y@, p, i as nat, q, carry_b.0 as int, carry.0 as int, bb(borrow_b), bb(borrow), tmp.0 as int);
+    }
+//@-
+                    i += 1;
+                }
+//@+
+    let ghost bprev = borrow;
+//@-
+                let (_, __t4) = x_hi.sbb(carry, borrow); borrow = __t4;
+//@+
+    proof {
+        assert((bb(borrow) == 1) <==> (hb - carry.0 as int - bb(bprev) < 0));
+        assert((p + yc) as nat == k);
+        lemma_knuth_sub_final(xb, x@, hb, k, yc as nat, yv, q, carry.0 as int, bb(bprev), bb(borrow));
+    }
+//@-
+                borrow
+            };
+//@+
+    let ghost xs = x@;
+    proof {
+        assert(tv(xs, p, k) == (if bb(borrow) == 1 { bp(k) + rp - yv * pp } else { rp }));
+    }
+//@-
+            // If the subtraction borrowed, then add back the divisor
+            // The probability of this being needed is very low, about 2/(Limb::MAX+1)
+            {
+                let ct_borrow = ConstChoice::from_word_mask(borrow.0);
+                let mut carry = Limb::ZERO;
+                i = 0;
+//@+
+    let ghost m: int = if ct_borrow.t() { 1 } else { 0 };
+    proof { assert(m * val(y@, 0) * pp == 0) by (nonlinear_arith) requires val(y@, 0) == 0; assert(0 * bp((p + 0) as nat) == 0); }
+//@-
+                while i < yc
+//@+
+    invariant
+        2 <= yc <= LIMBS, xi < LIMBS, xi + 1 >= yc, LIMBS < 0x400_0000,
+        p == xi + 1 - yc, pp == bp(p), 0 <= i <= yc, ct_borrow.wf(), m == (if ct_borrow.t() { 1int } else { 0int }),
+        forall|kq: int| 0 <= kq < LIMBS && !(p <= kq < p + i) ==> x@[kq] == xs[kq],
+        tv(x@, p, (p + i) as nat) + carry.0 as int * bp((p + i) as nat)
+            == tv(xs, p, (p + i) as nat) + m * val(y@, i as nat) * pp,
+    decreases yc - i,
+//@-
+{
+//@+
+    let ghost x_before = x@; let ghost carry_b = carry;
+//@-
+                    let (__t5, __t6) = x[xi + i + 1 - yc].adc(Limb::select(Limb::ZERO, y[i], ct_borrow), carry); x[xi + i + 1 - yc] = __t5; carry = __t6;
+//@+
+    proof {
+        let sel = if ct_borrow.t() { y@[i as int].0 as int } else { 0int };
+        lemma_knuth_add_step(xs, x_before, x@, y@, p, i as nat, m, sel, carry_b.0 as int, carry.0 as int);
+    }
+//@-
+                    i += 1;
+                }
+//@+
+    proof {
+        assert((p + yc) as nat == k);
+        lemma_knuth_add_final(xs, x@, k, yc as nat, yv, m, carry.0 as int, rp);
+    }
+//@-
+            }
+//@+
+    let ghost xa = x@;
+    proof {
+        assert(forall|kq: int| 0 <= kq < LIMBS && !(p <= kq < k) ==> xa[kq] == xb[kq]);
+        assert(tv(xa, p, k) == rp);
+        lemma_wide_iter(xb, xa, hb, k, yc as nat, nl, yv, qt, qacc, xv, be, val(x_lo.limbs@, extra_limbs as nat));
+        qacc = qacc + qt * pp * be;
+        assert(val(xa, k) == val(xa, xi as nat) + xa[xi as int].0 as int * bp(xi as nat));
+        assert(forall|j: int| xi < j < LIMBS ==> xa[j].0 == 0);
+    }
+//@-
+            // Set x_hi to the current highest word
+            x_hi = x[xi];
+            // If we have lower limbs remaining, shift the divisor words one word left
+            if extra_limbs > 0 {
+                extra_limbs -= 1;
+                i = LIMBS - 1;
+                while i > 0
+//@+
+    invariant 0 <= i <= LIMBS - 1,
+        forall|j: int| i < j < LIMBS ==> x@[j] == xa[j - 1],
+        forall|j: int| 0 <= j <= i ==> x@[j] == xa[j],
+    decreases i,
+//@-
+{
+                    x[i] = x[i - 1];
+                    i -= 1;
+                }
+                x[0] = x_lo.limbs[extra_limbs];
+//@+
+    proof {
+        lemma_wide_fetch(xa, x@, x_lo.limbs@, nl, (extra_limbs + 1) as nat, yv * pp);
+        lemma_bp_succ(p);
+        assert((k - yc + 1) as nat == p + 1);
+        assert(yv * bp((k - yc + 1) as nat) == (yv * pp) * B()) by (nonlinear_arith) requires bp((k - yc + 1) as nat) == B() * pp;
+    }
+//@-
+            } else {
+                if xi == yc - 1 {
+//@+
+    proof {
+        k = xi as nat;
+        assert((k - yc + 1) as nat == p);
+        lemma_bp1();
+        assert(val(x_lo.limbs@, 0) == 0);
+    }
+//@-
+                    break;
+                }
+                x[xi] = Limb::ZERO;
+                xi -= 1;
+//@+
+    proof {
+        k = (xi + 1) as nat;
+        lemma_val_ext(xa, x@, k);
+        assert((k - yc + 1) as nat == p);
+    }
+//@-
+            }
+        }
+//@+
+    proof {
+        // here: extra_limbs == 0, xi == yc - 1 == k, x_hi == x[yc - 1], xv == qacc * yv + val(x, yc), val(x, yc) < yv
+        lemma_bp1();
+        let a = val(x@, yc as nat);
+        assert(a == val(x@, k) + x_hi.0 as int * bp(k));
+        assert(val(x_lo.limbs@, 0) == 0);
+        assert(a * bp(0) == a) by (nonlinear_arith) requires bp(0) == 1;
+        assert(yv * bp(0) == yv) by (nonlinear_arith) requires bp(0) == 1;
+        assert(xv == qacc * yv + a);
+        lemma_val_bound(x@, yc as nat);
+        lemma_knuth_unshift(sv, rv, s2, qacc, a, a, 0);
+        lemma_fundamental_div_mod_converse(sv, rv, qacc, a / s2);
+    }
+//@-
+        // Unshift the remainder from the earlier adjustment
+        Uint::new(x).shr_limb_vartime(shift, yc)
+    }
 }
 //@@ end
 //@@ fn src/uint/div.rs | impl<const LIMBS: usize> Uint<LIMBS> | rem2k_vartime | body | props C02 C11
